@@ -187,6 +187,8 @@ def run(ctx):
     explicit utf8 codec.  The two agree for every locale exactly when (a) the writer names the same codec as the reader, or
     (b) the writer emits ASCII only (json.dump's default ensure_ascii=True), which every ASCII-compatible locale codec and
     utf8 decode identically."""
+    ctx.rule('R01.8', 'name binding: every global name a function refers to is bound at module level or builtin, and every local is assigned on every path before it is read', floor=6)
+    ctx.rule('R01.7', 'every exactly resolved call binds against its callee\'s signature (no missing/unknown/surplus argument on any arm)', floor=5)
     ctx.rule('R01.6', 'the notebook diff is a function of the two notebooks\' CONTENT: nothing reachable from diff_notebooks writes module-level state '
              '(memo tables keyed by object identity or cell ids, caches surviving the call) -- same analysis as C12 R12.1/R12.3', floor=8)
     ctx.rule('R01.5', 'file interface: the codec/escaping nbdiff --out writes the diff with is one nbpatch decodes identically under every locale', floor=1)
@@ -240,3 +242,7 @@ def run(ctx):
             ctx.instances.append(j)
             if j['verdict'] != 'ok':
                 ctx.findings.append(j)
+    from ..signatures import call_compat
+    call_compat(ctx, 'R01.7', ['nbdime.diffing.', 'nbdime.patching', 'nbdime.diff_utils', 'nbdime.diff_format', 'nbdime.nbdiffapp', 'nbdime.nbpatchapp'], 'diffing/patching a valid notebook aborts instead of round-tripping')
+    from ..names import name_binding
+    name_binding(ctx, 'R01.8', ['nbdime.diffing.', 'nbdime.patching', 'nbdime.diff_utils', 'nbdime.diff_format', 'nbdime.nbdiffapp', 'nbdime.nbpatchapp'])
